@@ -1,7 +1,7 @@
 #!/venv/bin/python
 """Verify a seeded change delivered by a sub-agent and record it under /verif/seeded/.
 
-usage: seed_verify.py <PROP> <k> [--keep] [--no-tests] [--wave2|--wave3|--wave5]
+usage: seed_verify.py <PROP> <k> [--keep] [--no-tests] [--wave2|--wave3|--wave5|--wave6]
   /tmp/seed/out-<PROP>/change<k>/{patch.diff,demo.py,notes.md}, worktree /tmp/seed/wt-<PROP>
 Steps: demo on the clean worktree (must exit 0), apply the patch, demo again (must exit != 0), baseline
 suite (448 stable tests must pass), every implemented check against the patched worktree, revert."""
@@ -29,9 +29,13 @@ def main():
     prop, k = sys.argv[1].upper(), sys.argv[2]
     keep = "--keep" in sys.argv
     notests = "--no-tests" in sys.argv
-    wave = 5 if "--wave5" in sys.argv else (3 if "--wave3" in sys.argv else (2 if "--wave2" in sys.argv else 1))
-    wt = "/tmp/seed/%s-%s" % ({1: "wt", 2: "w2", 3: "w3", 5: "w5"}[wave], prop)
-    if wave == 5:
+    wave = 6 if "--wave6" in sys.argv else (5 if "--wave5" in sys.argv else (3 if "--wave3" in sys.argv else (2 if "--wave2" in sys.argv else 1)))
+    wt = "/tmp/seed/%s-%s" % ({1: "wt", 2: "w2", 3: "w3", 5: "w5", 6: "w6"}[wave], prop)
+    if wave == 6:
+        # sixth round: out6-<P>/fault<k>; ids continue after round 5
+        out = "/tmp/seed/out6-%s/fault%s" % (prop, k)
+        sid = "%s-%d" % (prop, int(k) + 12)
+    elif wave == 5:
         # fifth round: out5-<P>/fault<k> (faults) next to out5-<P>/benign<k> (handled by tools/benign_collect.py); ids continue after round 3
         out = "/tmp/seed/out5-%s/fault%s" % (prop, k)
         sid = "%s-%d" % (prop, int(k) + 9)
@@ -65,7 +69,7 @@ def main():
     res["compiles"] = (rcc == 0)
     if not notests:
         junit = tempfile.mktemp(suffix=".xml")
-        sh("/venv/bin/python -m pytest -q -p no:cacheprovider --timeout=900 -n 16 --junitxml=%s" % junit, cwd=wt,
+        sh("/venv/bin/python -m pytest -q -p no:cacheprovider --timeout=900 -n 8 --junitxml=%s" % junit, cwd=wt,
            env=dict(os.environ, OMP_NUM_THREADS="1"))
         rct, ot = sh("%s/tools/baseline_compare.py %s" % (VERIF, junit))
         res["suite"] = ot.strip().splitlines()[0] if ot.strip() else "?"
